@@ -176,6 +176,13 @@ type FuncSpec struct {
 	InOutVal map[string]int
 	// AlsoRet: RetVal function whose Lean twin returns (value, final value of this parameter) - the callee side of InOutVal
 	AlsoRet string
+	// (C14) AlsoRetType: with Ret RetValErr and AlsoRet set, the Lean twin returns `(Go.R RetType × AlsoRetType)`: the result AND the final
+	// value of the pointer parameter / receiver named by AlsoRet on EVERY path (error returns included), so that writes through the
+	// receiver are part of what the regenerated definition says (a frame theorem `(f now a v).2 = v` states that there are none)
+	AlsoRetType string
+	// (C14) ClosureState: with Closures, a function literal WITHOUT results whose effect is the change it makes to this (reference-typed)
+	// parameter (`func(values url.Values) { values.Set(..) }`): the Lean lambda returns the parameter's final value
+	ClosureState string
 
 	// ---- error values as structures (C11 error side; default-off)
 	// ErrStruct: `oidc.ErrX().WithDescription(..).WithParent(..)` is NOT collapsed to the name "ErrX": constructors and With-methods are
@@ -1505,6 +1512,16 @@ func (t *tr) block(stmts []ast.Stmt, k cont) string {
 						t.varTypes[n.Name] = goSrc(t.fset, vs.Type)
 					}
 				}
+				if len(vs.Values) == len(vs.Names) && len(vs.Values) > 0 {
+					// (C14) var x T = e   ->   let x := e   (was dropped, which left `x` unbound in the Lean text: a value-neutral rewrite of
+					// `x := e` came out as a definition that does not elaborate)
+					for i, n := range vs.Names {
+						if n.Name != "_" {
+							out += "let " + t.ident(n.Name) + " := " + t.expr(vs.Values[i]) + ";\n" + t.pad()
+						}
+					}
+					continue
+				}
 				if len(vs.Values) != 0 || vs.Type == nil {
 					continue
 				}
@@ -2414,6 +2431,9 @@ func translateFunc(fset *token.FileSet, fd *ast.FuncDecl, spec *FuncSpec) (strin
 		}
 	case RetValErr:
 		rt = "Go.R " + spec.RetType
+		if spec.AlsoRet != "" && spec.AlsoRetType != "" {
+			rt = "(Go.R " + spec.RetType + " × " + spec.AlsoRetType + ")"
+		}
 	case RetVoid, RetHandler:
 		rt = ""
 	case RetHandled:
